@@ -159,6 +159,12 @@ def inherited_complete(ctx, o, ps: PassShape, pt):
     """the loop over the ancestors that grows the successor collection visits every ancestor and adds unconditionally
     (a guard `if parent.successors:` is harmless).  A `break` after the first ancestor that has successors drops the
     successors of all farther ancestors."""
+    closure = [x for x in walk_no_nested(ps.f.node) if isinstance(x, ast.Attribute) and x.attr == 'all_' + ps.rel]
+    if closure:
+        o.refute(ps.f, closure[0], closure[0], f"the tasks that bound a task are collected from `{src(closure[0])}` (the transitive closure of the links), not from "
+                                               f"its direct {ps.rel}: the due date also follows indirect {ps.rel} (e.g. one with a fixed early start), so the "
+                                               f"task is placed earlier than its direct successors and capacity allow")
+        return
     if pt is None or not pt.get('sources'):
         o.undecided(ps.f, ps.f.node, 'ancestors', "successor collection not recognised")
         return
